@@ -422,7 +422,11 @@ func hintsCase(c *Case, lean *LeanDriver) Verdict {
 			}
 		}
 	}
-	if !strings.Contains(planStr, "(si (agg") && !same {
+	movingParam := false
+	if plan, err := c.Preprocess(); err == nil {
+		movingParam = movingParamUnderWrapper(plan)
+	}
+	if !strings.Contains(planStr, "(si (agg") && !movingParam && !same {
 		v.Other = fmt.Sprintf("selects differ: engine %v vs reference %v", es, ps)
 		return v
 	}
